@@ -113,6 +113,8 @@ pub struct World {
     pub log_events: bool,
     /// actor threads that have finished their runtime start-up and reached the start gate
     pub arrived: usize,
+    /// contents installed, in order, under each name of the live (real) directory during this scenario
+    pub live_hist: BTreeMap<String, Vec<usize>>,
 }
 
 pub static WORLD: Mutex<Option<World>> = Mutex::new(None);
@@ -121,6 +123,9 @@ pub static CV: Condvar = Condvar::new();
 pub static CVS: [Condvar; 16] = [const { Condvar::new() }; 16];
 
 thread_local! {
+    /// set while this thread is inside a library call through the default (real file system) reader:
+    /// every file-system request it makes is then a scheduling point
+    pub static LIVE_CALL: Cell<bool> = const { Cell::new(false) };
     pub static ME: Cell<usize> = const { Cell::new(0) };
     pub static OP_READS: RefCell<Vec<ReadRec>> = const { RefCell::new(Vec::new()) };
     pub static CLOCK_READS: RefCell<Vec<i128>> = const { RefCell::new(Vec::new()) };
@@ -155,6 +160,19 @@ pub fn sync_static_ranges() -> Vec<(usize, usize)> {
 
 pub fn lock() -> MutexGuard<'static, Option<World>> {
     WORLD.lock().unwrap_or_else(|e| e.into_inner())
+}
+
+/// The shim's callback: a file-system request is about to be made by this thread.
+pub extern "C" fn fs_request_hook(_kind: i32) {
+    if LIVE_CALL.with(|c| c.get()) {
+        yield_point(ME.with(|m| m.get()), "syscall");
+    }
+}
+
+/// The worker's own directory of real files (under /verif/target, never under /tmp).
+pub fn live_dir() -> String {
+    let root = std::env::var("TZSIM_LIVE").unwrap_or_else(|_| format!("{}/../target/live", std::env::var("TZSIM_CORPUS").unwrap_or_else(|_| "/verif/corpus".into())));
+    format!("{root}/{}", std::process::id())
 }
 
 /// Run harness code inside a measurement window without charging it to the library.
